@@ -2241,7 +2241,25 @@ isal_inflate(struct inflate_state *state)
                 struct isal_gzip_header gz_hdr;
 
                 isal_gzip_header_init(&gz_hdr);
+                /* isal_read_gzip_header() keeps the flags, the length of the extra
+                 * field and the running header crc in the header structure when it
+                 * has to be called again with more input. The structure used here
+                 * does not outlive the call, so these are parked in the fields that
+                 * hold an output overflow, which are idle (zero) until the first
+                 * block is decoded. */
+                gz_hdr.flags = state->write_overflow_lits;
+                gz_hdr.extra_len = state->write_overflow_len;
+                gz_hdr.hcrc = state->copy_overflow_length;
                 ret = isal_read_gzip_header(state, &gz_hdr);
+                if (ret > 0) {
+                        state->write_overflow_lits = gz_hdr.flags;
+                        state->write_overflow_len = gz_hdr.extra_len;
+                        state->copy_overflow_length = gz_hdr.hcrc;
+                } else {
+                        state->write_overflow_lits = 0;
+                        state->write_overflow_len = 0;
+                        state->copy_overflow_length = 0;
+                }
                 if (ret < 0)
                         return ret;
                 else if (ret > 0)
@@ -2250,6 +2268,10 @@ isal_inflate(struct inflate_state *state)
                 struct isal_zlib_header z_hdr;
 
                 isal_zlib_header_init(&z_hdr);
+                /* Resuming inside the dictionary id: the dictionary flag was seen by
+                 * the call that ran out of input */
+                if (state->block_state == ISAL_ZLIB_DICT)
+                        z_hdr.dict_flag = 1;
                 ret = isal_read_zlib_header(state, &z_hdr);
                 if (ret < 0)
                         return ret;
